@@ -61,6 +61,14 @@ impl DataItem for DateItem {
         let mut date = self.0;
         let mut duration = other.as_any().downcast_ref::<DurationItem>()?.get_duration();
 
+        /* A negative span moves the date the other way */
+        let operation_type = match (duration < Duration::zero(), operation_type) {
+            (true, OperationType::Add) => OperationType::Sub,
+            (true, OperationType::Sub) => OperationType::Add,
+            (_, operation_type) => operation_type
+        };
+        duration = Duration::seconds(duration.num_seconds().checked_abs()?);
+
         /* A span is read as 365 day years, 30 day months and remaining days */
         let years = self.get_year_from_duration(duration);
         duration = Duration::seconds(duration.num_seconds() - (YEAR * years));
